@@ -1154,4 +1154,89 @@ theorem csvr_strip_line_clean (o : Opts) (hb : o.binary = false) (d : Char) (hd 
       simp only [List.map_id, id]
       exact hout n h rows
 
+
+/-! cell-level sufficient condition for lines without outer blanks -/
+
+theorem encWith_head (q : Str → Bool) (f : Str) (x : Char) (h : (encWith q f).head? = some x) :
+    x = '"' ∨ f.head? = some x := by
+  unfold encWith at h
+  split at h
+  · left; simp [quoted] at h; exact h.symm
+  · right; exact h
+
+theorem encWith_last (q : Str → Bool) (f : Str) (x : Char) (h : (encWith q f).getLast? = some x) :
+    x = '"' ∨ f.getLast? = some x := by
+  unfold encWith at h
+  split at h
+  · left; rw [getLast_quoted] at h; simp at h; exact h.symm
+  · right; exact h
+
+theorem rowStr_head (d : Char) (q : Str → Bool) (f : Str) (fs : List Str) (x : Char)
+    (h : (rowStr d q f fs).head? = some x) : x = '"' ∨ x = d ∨ f.head? = some x := by
+  cases fs with
+  | nil =>
+    rcases encWith_head q f x h with h | h
+    · exact Or.inl h
+    · exact Or.inr (Or.inr h)
+  | cons g gs =>
+    simp only [rowStr] at h
+    cases he : encWith q f with
+    | nil => rw [he] at h; simp at h; exact Or.inr (Or.inl h.symm)
+    | cons y ys =>
+      rw [he] at h
+      simp at h
+      subst h
+      rcases encWith_head q f y (by rw [he]; rfl) with h | h
+      · exact Or.inl h
+      · exact Or.inr (Or.inr h)
+
+theorem rowStr_last (d : Char) (q : Str → Bool) (f : Str) (fs : List Str) (x : Char)
+    (h : (rowStr d q f fs).getLast? = some x) :
+    x = '"' ∨ x = d ∨ ∃ g ∈ f :: fs, g.getLast? = some x := by
+  induction fs generalizing f with
+  | nil =>
+    rcases encWith_last q f x h with h | h
+    · exact Or.inl h
+    · exact Or.inr (Or.inr ⟨f, by simp, h⟩)
+  | cons g gs ih =>
+    simp only [rowStr] at h
+    rw [List.getLast?_append] at h
+    cases hr : rowStr d q g gs with
+    | nil => rw [hr] at h; simp at h; exact Or.inr (Or.inl h.symm)
+    | cons y ys =>
+      have : (d :: rowStr d q g gs).getLast? = (rowStr d q g gs).getLast? := by
+        rw [hr]; simp [List.getLast?_cons_cons]
+      rw [this] at h
+      have hsome : ∃ z, (rowStr d q g gs).getLast? = some z := by
+        rw [hr]; exact ⟨_, List.getLast?_eq_some_getLast (l := y :: ys) (by simp)⟩
+      obtain ⟨z, hz⟩ := hsome
+      rw [hz] at h
+      simp at h
+      subst h
+      rcases ih g hz with h | h | ⟨k, hk, hx⟩
+      · exact Or.inl h
+      · exact Or.inr (Or.inl h)
+      · exact Or.inr (Or.inr ⟨k, by simp at hk ⊢; right; exact hk, hx⟩)
+
+/-- cell-level sufficient condition for `C14_strip_line_clean`: the delimiter is not a blank and
+no cell begins or ends with one -/
+theorem bodyOf_outerClean (p : Char → Bool) (d : Char) (t : Str) (hpd : p d = false)
+    (hpq : p '"' = false) (r : List Str) (hr : ∀ f ∈ r, OuterClean p f) :
+    OuterClean p (bodyOf d t r) := by
+  cases r with
+  | nil => constructor <;> intro x hx <;> simp [bodyOf_nil] at hx
+  | cons f fs =>
+    rw [bodyOf_cons]
+    constructor
+    · intro x hx
+      rcases rowStr_head d _ f fs x hx with h | h | h
+      · rw [h]; exact hpq
+      · rw [h]; exact hpd
+      · exact (hr f (by simp)).1 x h
+    · intro x hx
+      rcases rowStr_last d _ f fs x hx with h | h | ⟨g, hg, h⟩
+      · rw [h]; exact hpq
+      · rw [h]; exact hpd
+      · exact (hr g hg).2 x h
+
 end N0.CsvReader
